@@ -18,7 +18,6 @@ from vlib import *
 from modcorpus import *
 from widegen import WGen
 from c13_util import *
-import c02 as C02
 
 import threading
 _LOCK = threading.Lock()
@@ -459,8 +458,6 @@ def main(tier):
                 elif "-fcompound-names" not in var.opts and m.get("asn1c_rc") and "-fcompound-names" in m.get("asn1c_out", ""):
                     # asn1c itself refuses: `FATAL: Use "-fcompound-names" flag to asn1c to resolve name clashes` (C10's business)
                     run.count("not_built_without_compound_names(asn1c diagnoses the name clash)")
-                elif m.get("asn1c_rc") == 0 and "-fno-constraints" in var.opts and dangling_member_constraints(m):
-                    run.known_finding("C13-no-constraints-unbuildable", mname + " " + var.label())
                 else:
                     run.violation("build:option-breaks-module", {"what": "a module that builds under the baseline options does not build under " + var.label(),
                                                                   "module": m["text"], "asn1c_out": m.get("asn1c_out", "")[-1500:], "build_log": m.get("build_log", "")[-1500:]})
@@ -486,10 +483,7 @@ def main(tier):
         values = [(c["tn"], c["der"]) for c in cs]
         mb = {"der": [c["der"] for c in cs], "uper": [c["uper"] for c in cs], "oer": [c["oer"] for c in cs], "uperstd": [c["uperstd"] for c in cs]}
 
-        def classify(j, s, kind, detail, m=m, cs=cs):
-            c = cs[j]
-            if s == "uper" and (C02.ref_to_choice(m, c["tn"]) or C02.uses_choice_ref(m, dict(m["defs"])[c["tn"]])):
-                return "C02-choice-ref-no-per" if kind == "model-differs" else None
+        def classify(j, s, kind, detail):
             return None
         check_module(run, rng, tier, variants, m["name"], values, classify, "model", model_bytes=mb, dec_limit=150 if quick else 200)
         if cs:
